@@ -135,7 +135,8 @@ CLAIMED["C02"] = dict(
          "in the ray march every per-axis expression uses one axis, the upper face is used for positive direction, the surplus-path "
          "correction lands exactly on the target optical depth, each visited cell is credited once with the corrected length, and "
          "INSIDE is returned iff the target was reached; for a vanishing direction component the wall distance of that axis is DBL_MAX / "
-         "+inf wherever the packet sits in the closed cell (abstract evaluation over {zero, nonneg, inf, NaN-possible, ...}). The "
+         "+inf wherever the packet sits in the closed cell (abstract evaluation over {zero, nonneg, inf, NaN-possible, ...}); every value "
+         "added to a mean-intensity or heating estimator is a product containing the packet weight, the cross section and the path length. The "
          "floating-point march itself is not decided.",
     note="Trusted: clang, AST export. Optical depth is linear in the path length within a cell (as coded in get_optical_depth).")
 CLAIMED["C03"] = dict(
